@@ -170,15 +170,17 @@ def axisText : Axis → Str
   | .ancestor => ['a', 'n', 'c', 'e', 's', 't', 'o', 'r', ':', ':']
   | .ancestorOrSelf => ['a', 'n', 'c', 'e', 's', 't', 'o', 'r', '-', 'o', 'r', '-', 's', 'e', 'l', 'f', ':', ':']
 
+def axisPrefix : Option Axis → Str
+  | some a => axisText a
+  | none => []
+
 def renderPreds {N : Type} : List (S N) → Str
   | [] => []
   | p :: ps => '[' :: (renderS p ++ (']' :: renderPreds ps))
 
 def renderStep {N : Type} (s : SurfStep N) : Str :=
   (if s.dbl then ['/', '/'] else ['/']) ++
-    ((match s.axis with
-      | some a => axisText a
-      | none => []) ++ (s.name ++ renderPreds s.preds))
+    (axisPrefix s.axis ++ (s.name ++ renderPreds s.preds))
 
 /-- Canonical text of an expression. -/
 def renderExpr {N : Type} : List (SurfStep N) → Str
